@@ -6,6 +6,7 @@ CONSTANTS
     SrvKinds = {"chclose", "deliver"}
     Faults = {}
     ClientClose = FALSE
+    Compliant = FALSE
     Bug = {}
 SPECIFICATION Spec
 INVARIANTS Pairing NothingAfterClose Released NoStuckCaller SlotsLive OneTerminal
